@@ -149,6 +149,8 @@ def string_block_size_enforced(ctx, c, pid):
 def run(ctx):
     prog = ctx.prog
     c = prog.crate(C)
+    from .c15 import prealloc_cap_rule
+    prealloc_cap_rule(ctx, [c], "C17", floor=2)
     R_w = ctx.rule("C17.field-width-tables-agree", "each FieldType variant has the same width in size(), the decoder, the encoder and the default-value arm", floor=4)
     R_h = ctx.rule("C17.header-write-equals-read", "header fields are written in the order and widths they are read", floor=1)
     R_fc = ctx.rule("C17.field-count-rule-agrees", "the writer's field_count counts array elements exactly as Schema::validate does", floor=1)
